@@ -12,6 +12,8 @@ Contracts (all from the statement):
 Scope: every structure skeleton built from '~', '|', tuples and keywords (Formula(**kw) / dict) with
 nesting depth <= 3 and <= 4 parts (exhaustively enumerated), parts drawn from a pool of term sets over
 x, y, z (float) and A, B (text) that share factors across parts, nulls scattered over the columns.
+A second driver ('shared-factor-ranks') places ONE coded factor expression C(v, contr.<c>) in two parts that need it
+at different ranks (full rank first / reduced rank first), for every built-in coding and every 2-part skeleton.
 A case whose parts cannot be built separately (exception in the separate build) is skipped and counted:
 the statement defines the expected value through that build.
 """
@@ -399,6 +401,71 @@ def gen_cases(rng, skels, per_skeleton, rows=6):
             yield (node, parts, kw_style, tuple(masks), rows, ik, entry, out)
 
 
+# --- shared categorical factor with an explicit coding, at different ranks in different parts -------------
+CONTRASTS = ("treatment", "sum", "helmert", "poly", "SAS", "diff")
+
+
+def shared_factor_parts(contrast, var="A", other="B"):
+    """(full-rank uses, reduced-rank uses, mixed single-part use) of ONE factor expression E.
+    Full rank: E is the first categorical main effect of a part without intercept; reduced rank: the part
+    has an intercept (explicit `1 +`, so that nested positions -- which get no default intercept -- agree)."""
+    E = f"C({var}, contr.{contrast})"
+    O = f"C({other}, contr.{contrast})"
+    full = [f"0 + {E}", f"0 + {E} + x", f"0 + {E} + {E}:z"]
+    reduced = [f"1 + {E}", f"1 + {E} + x", f"1 + z + {E}", f"1 + {O} + {E}"]
+    mixed = [f"0 + {O} + {E} + {E}:{O}", f"0 + {E}:{O} + x"]
+    return full, reduced, mixed
+
+
+def shared_factor_cases(rng, skels2, skels3, thorough, rows=6):
+    """Every 2-part skeleton x every built-in contrast x (full rank first / reduced rank first / mixed) with
+    the SAME factor expression in both parts; thorough adds 3-part skeletons (third part from the pool)."""
+    cols = ("x", "y", "z", "A", "B")
+    combos = list(itertools.product(ENTRIES, OUTPUTS, INDEXES))
+    n = 0
+    for contrast in CONTRASTS:
+        for var, other in (("A", "B"), ("B", "A")):
+            full, reduced, mixed = shared_factor_parts(contrast, var, other)
+            pairs = []
+            for i, f in enumerate(full):
+                r = reduced[i % len(reduced)]
+                pairs += [(f, r), (r, f)]
+            pairs += [(mixed[0], reduced[0]), (full[0], mixed[0]), (reduced[3], full[1]), (mixed[1], reduced[1])]
+            if var == "B" and not thorough:
+                pairs = pairs[:2]
+            for node in skels2:
+                for pi, (p1, p2) in enumerate(pairs):
+                    if not thorough and (n + pi) % 3 and pi >= 2:
+                        continue  # quick: the two plain orders always, the other combinations rotate
+                    masks = []
+                    for c in cols:
+                        k = rng.choice([0, 0, 1]) if c in ("A", "B", "z") else rng.choice([0, 1, 1])
+                        m = 0
+                        for i in rng.sample(range(rows), k):
+                            m |= 1 << i
+                        masks.append((c, m))
+                    entry, out, ik = combos[n % len(combos)]
+                    n += 1
+                    kw = "Formula" if n % 2 else "dict"
+                    yield (node, (p1, p2), kw, tuple(masks), rows, ik, entry, out)
+            if thorough:
+                for node in skels3:
+                    for (p1, p2) in pairs[:4]:
+                        third = rng.choice(POOL)
+                        parts = [p1, p2, third]
+                        rng.shuffle(parts)
+                        masks = []
+                        for c in cols:
+                            k = rng.choice([0, 0, 1])
+                            m = 0
+                            for i in rng.sample(range(rows), k):
+                                m |= 1 << i
+                            masks.append((c, m))
+                        entry, out, ik = combos[n % len(combos)]
+                        n += 1
+                        yield (node, tuple(parts), "Formula" if n % 2 else "dict", tuple(masks), rows, ik, entry, out)
+
+
 def run_bounded(ctx):
     rng = random.Random(ctx.seed * 7919 + 7)
     ctx.assume(
@@ -440,6 +507,32 @@ def run_bounded(ctx):
         rep.note()
         if skipped:
             ctx.notes.append(f"bounded:structures: {skipped} cases skipped (a part could not be built separately)")
+    skels2 = [sk for sk in skels if _n_leaves(sk) == 2]
+    skels3 = [sk for sk in skels if _n_leaves(sk) == 3]
+    with ctx.bounded(
+        "shared-factor-ranks",
+        rule=f"the SAME categorical factor expression C(v, contr.<c>) for every built-in coding c in {list(CONTRASTS)} and v in A, B "
+        f"placed in two parts of every 2-part skeleton ({len(skels2)}), once needed at full rank first and reduced rank second, "
+        "once the other way round, plus parts that need both ranks themselves (main effect + interaction); "
+        + (f"thorough: also every 3-part skeleton ({len(skels3)}) with a third pool part; " if ctx.thorough else "")
+        + "same contracts as 'structures' (each part == its separate build == what its own spec regenerates)",
+        exhaustive=False,
+        bound="2-3 parts, depth<=3, rows=6, 6 codings",
+    ) as b:
+        rep = K.Reporter(ctx, b)
+        tasks = list(shared_factor_cases(random.Random(ctx.seed * 7919 + 77), skels2, skels3, ctx.thorough))
+        results = K.run_pool(_worker, tasks, chunk=60)
+        skipped = 0
+        for n_eval, keys, samples, failures in results:
+            b.add_counts(n_eval, keys, samples)
+            skipped += sum(f["skipped"] for f in failures if "skipped" in f)
+            for f in failures:
+                if "skipped" not in f:
+                    f["cls"] = "shared-coded-factor | " + f["cls"]
+            rep.absorb([f for f in failures if "skipped" not in f])
+        rep.note()
+        if skipped:
+            ctx.notes.append(f"bounded:shared-factor-ranks: {skipped} cases skipped (a part could not be built separately)")
     if not ctx.explanation:
         ctx.explanation = (
             "bounded stand-in only (no deductive obligations registered in this run): shape / row alignment / "
